@@ -486,7 +486,7 @@ def can_glue(a, b):
 
 def layout(tokens, rng=None, style='space'):
     """Join tokens into text.  style 'space': single spaces (dots and '@' glued); 'tight': glue
-    wherever safe; 'random': whitespace drawn from {' ', '  ', newline, tab, ''}."""
+    wherever safe; 'random': whitespace drawn from {' ', '  ', newline, tab, ''} and, rarely, form feed / CR / CRLF."""
     parts = []
     for i, tok in enumerate(tokens):
         if i:
@@ -499,6 +499,8 @@ def layout(tokens, rng=None, style='space'):
                 ws = rng.choice((' ', ' ', '  ', '\n', '\t', '', ''))
                 if ws == '' and not can_glue(prev, tok):
                     ws = ' '
+                elif ws == '  ' and rng.random() < 0.15:
+                    ws = rng.choice(('\f', '\r\n', '\r', ' \f\n'))  # the rarer members of the blank class [ \t\f\r\n]
             # never separate a comment-like hash? '#' is an ordinary token: fine
             parts.append(ws)
         parts.append(tok)
